@@ -76,7 +76,9 @@ class Report(object):
         return True
 
     # ---- finishing
-    def finalize(self, hashes=None, resolver_stats=None):
+    def finalize(self, hashes=None, resolver_stats=None, write=True):
+        if os.environ.get("DFV_NO_EVIDENCE"):
+            write = False
         known = load_known()
         known_keys = {}
         for f in known.get("findings", []):
@@ -97,17 +99,19 @@ class Report(object):
             else:
                 new_viol.append(o)
         outdir = os.path.join(VERIF, "out", self.pid)
-        os.makedirs(outdir, exist_ok=True)
-        for f in os.listdir(outdir):
-            if f.startswith("violation-"):
-                os.remove(os.path.join(outdir, f))
+        if write:
+            os.makedirs(outdir, exist_ok=True)
+            for f in os.listdir(outdir):
+                if f.startswith("violation-"):
+                    os.remove(os.path.join(outdir, f))
         for o in known_hit:
             lines.append("KNOWN-FINDING: property=%s %s -- %s [%s]" % (self.pid, known_keys[o.key].get("what", o.detail), o.site, o.key))
         for k, o in enumerate(new_viol):
             path = os.path.join(outdir, "violation-%d.json" % k)
-            with open(path, "w") as fh:
-                json.dump({"property": self.pid, "rule": o.rule, "site": o.site, "key": o.key,
-                           "detail": o.detail, "path": o.path}, fh, indent=1)
+            if write:
+                with open(path, "w") as fh:
+                    json.dump({"property": self.pid, "rule": o.rule, "site": o.site, "key": o.key,
+                               "detail": o.detail, "path": o.path}, fh, indent=1)
             lines.append("%s: %s -- %s" % (o.site, o.rule, o.detail))
             for p in o.path[:40]:
                 lines.append("      %s" % p)
@@ -168,8 +172,10 @@ class Report(object):
             "violations": len(new_viol),
         }
         ev["coverage"].update(self.extra)
-        evdir = os.path.join(VERIF, "evidence")
-        os.makedirs(evdir, exist_ok=True)
-        with open(os.path.join(evdir, "%s.json" % self.pid), "w") as fh:
-            json.dump(ev, fh, indent=1, sort_keys=False)
+        self.evidence = ev
+        if write:
+            evdir = os.path.join(VERIF, "evidence")
+            os.makedirs(evdir, exist_ok=True)
+            with open(os.path.join(evdir, "%s.json" % self.pid), "w") as fh:
+                json.dump(ev, fh, indent=1, sort_keys=False)
         return code, lines
